@@ -106,6 +106,45 @@ func patchClasses(p val.V) (cls []string, nontrivial bool) {
 	return dedupStrings(cls), nontrivial
 }
 
+// checkC09Refusal: diffs made under SET / MULTISET / SetKeys address array
+// members through {} / [] / {"k":v} path elements, which no JSON Pointer can
+// express: RenderPatch must refuse them (an error), never print a patch.
+func checkC09Refusal(c PairCase, r *rec.Rec) error {
+	d, pmsg, panicked := jdx.DiffSafe(jdx.NodeText(c.A), jdx.NodeText(c.B), jdx.Options(c.Opts))
+	if panicked {
+		return rec.Violated("Diff panicked: %s", pmsg)
+	}
+	hs, err := jdx.ToHunks(d)
+	if err != nil {
+		return rec.Violated("diff holds an unreadable node: %v", err)
+	}
+	setPath := false
+	for _, h := range hs {
+		for _, e := range h.Path {
+			if e.Kind != ref.Key && e.Kind != ref.Index {
+				setPath = true
+			}
+		}
+	}
+	var ptext string
+	var perr error
+	if msg, p := jdx.Guard(func() { ptext, perr = jdx.NodeText(c.A).Diff(jdx.NodeText(c.B), jdx.Options(c.Opts)...).RenderPatch() }); p {
+		return rec.Violated("RenderPatch panicked: %s", msg)
+	}
+	if setPath && perr == nil {
+		return rec.Violated("the diff addresses set members (%s) but RenderPatch printed a JSON Patch instead of refusing:\n%s\nnative diff:\n%s", c.Opts, ptext, d.Render())
+	}
+	cls := []string{"opts=" + c.Opts}
+	if setPath {
+		cls = append(cls, "refused-set-path")
+	}
+	r.Case(c.A+"|"+c.B+"|"+c.Opts, setPath, cls...)
+	if setPath {
+		r.Sample(c)
+	}
+	return nil
+}
+
 func checkC09(c TargetCase, r *rec.Rec) error {
 	av, err := val.Parse(c.A)
 	if err != nil {
@@ -236,6 +275,12 @@ func genC09(t *rapid.T) TargetCase {
 	return c
 }
 
-func init() { Register("C09", "random", checkC09) }
+func init() { Register("C09", "random", checkC09); Register("C09", "refusal", checkC09Refusal) }
 
 func TestC09Random(t *testing.T) { RunRandom(t, "C09", "random", genC09, checkC09) }
+
+func TestC09Refusal(t *testing.T) {
+	RunRandom(t, "C09", "refusal", func(t *rapid.T) PairCase {
+		return genPairCase(t, []string{"set", "mset", "setkeys:id"}, nil)
+	}, checkC09Refusal)
+}
